@@ -310,13 +310,13 @@ func runHistWorker(req hreq) []hres {
 	return nil
 }
 
-// historyPhase enumerates the histories and judges every result.
-func historyPhase(r *vcommon.Run, thorough bool, violAt func(order int64, key string, rep any, what func() string)) {
+// historyPhase enumerates the histories and runs them (this part touches neither time.Local nor the clock, so it may
+// run beside the main enumeration, which sets time.Local); the returned function judges every result.
+func historyPhase(r *vcommon.Run, thorough bool, violAt func(order int64, key string, rep any, what func() string)) (judge func()) {
 	loc, err := time.LoadLocation(histZone)
 	if err != nil {
 		vcommon.Harness("%v", err)
 	}
-	histStart := time.Now()
 	fs := histFormats(thorough)
 	n := len(fs)
 	toks := make([][]c26lib.Tok, n)
@@ -444,152 +444,153 @@ func historyPhase(r *vcommon.Run, thorough bool, violAt func(order int64, key st
 			vcommon.Harness("format %d begins no history", i)
 		}
 	}
-	var noRef atomic.Int64
+	return func() {
+		var noRef atomic.Int64
 
-	const orderBase = int64(1) << 60 // after every class of the main phase
-	vcommon.Parallel(len(hists), func(hi int) {
-		hs := hists[hi]
-		res := results[hi]
-		seqNames := make([]string, len(hs.seq))
-		for i, fi := range hs.seq {
-			seqNames[i] = fs[fi].rp
-		}
-		for k, h := range res {
-			r.Eval(1)
-			order := orderBase + int64(hi)*10000000 + int64(k)
-			f := fs[h.Fi]
-			p := histPaths[h.Pi]
-			t := histInstant(h.Ii, loc)
-			// relation of the format in use to the formats used before it in this history
-			rel := "first-format-of-process"
-			for _, prev := range hs.seq[:h.Step] {
-				if prev == h.Fi {
-					continue
-				}
-				if shapes[prev] == shapes[h.Fi] {
-					rel = "after-format-of-same-shape"
-					break
-				}
-				rel = "after-format-of-other-shape"
+		const orderBase = int64(1) << 60 // after every class of the main phase
+		vcommon.Parallel(len(hists), func(hi int) {
+			hs := hists[hi]
+			res := results[hi]
+			seqNames := make([]string, len(hs.seq))
+			for i, fi := range hs.seq {
+				seqNames[i] = fs[fi].rp
 			}
-			rep := map[string]any{"zone": histZone, "history": seqNames, "step": h.Step, "recordPath": f.rp, "recordFormat": string(f.rf),
-				"path": p, "instant": histInstants[h.Ii], "mode": h.Mode, "name": h.Name, "nameWrittenUnder": fs[h.Src].rp, "got": h.outcome()}
-			viol := func(kind string, what func() string) {
-				violAt(order, "history:"+kind+":"+f.family+":"+rel, rep, what)
-				r.Distinct(fmt.Sprintf("hist|%s|%s|%s|%s|%s|%s", hs.kind, f.family, fs[h.Src].family, rel, h.Mode, kind))
-			}
-			ctx := func() string {
-				seqNames := seqNames
-				if len(seqNames) > 4 {
-					seqNames = []string{seqNames[0], seqNames[1], fmt.Sprintf("... %d more (see replay) ...", len(seqNames)-3), fs[h.Fi].rp}
-				}
-				return fmt.Sprintf("history %s (fresh process, zone %s), step %d, recordPath %q, mode %s", strings.Join(seqNames, " ; "), histZone, h.Step, f.rp, h.Mode)
-			}
-
-			// (2) purity: same call, same answer as in the process where this format was the only one used
-			// (judged when the reference model has nothing to object)
-			pure := func() {
-				if fr, ok := fresh[h.Fi][h.callKey()]; !ok {
-					// this name was never offered to this format at a step 0: the model alone judges
-					noRef.Add(1)
-				} else if fr.outcome() != h.outcome() || fr.Name != h.Name {
-					rep["freshProcess"] = fr.outcome()
-					viol("differs-from-fresh-process", func() string {
-						return fmt.Sprintf("%s: %q gives %s, but %s when this format is the only one used in the process", ctx(), h.Name, h.outcome(), fr.outcome())
-					})
-				}
-			}
-
-			// (1) the reference model
-			if h.Panic != "" {
-				viol("panic", func() string { return fmt.Sprintf("%s: %q: %s", ctx(), h.Name, h.Panic) })
-				continue
-			}
-			if h.Mode == "E" {
-				if m := c26lib.ModelEncode(toks[h.Fi], p, t); m != h.Name {
-					viol("encoded-name-differs", func() string {
-						return fmt.Sprintf("%s: the recorder names (%q, %s) %q, the format says %q", ctx(), p, histInstants[h.Ii], h.Name, m)
-					})
-				} else {
-					r.Distinct(fmt.Sprintf("hist|%s|%s|%s|E|ok", hs.kind, f.family, rel))
-					pure()
-				}
-				continue
-			}
-			fixed := ""
-			if h.Mode == "F" {
-				fixed = p
-			}
-			model := c26lib.Parse(toks[h.Fi], h.Name, fixed, loc)
-			var got time.Time
-			if h.OK {
-				var perr error
-				got, perr = time.Parse(time.RFC3339Nano, h.Start)
-				if perr != nil {
-					vcommon.Harness("bad worker instant %q", h.Start)
-				}
-			}
-			own := h.Src == h.Fi
-			outcome := ""
-			switch {
-			case own && !h.OK:
-				viol("produced-name-not-recognized", func() string {
-					return fmt.Sprintf("%s: name %q produced by the recorder for path %q at %s is not recognized", ctx(), h.Name, p, histInstants[h.Ii])
-				})
-				continue
-			case h.OK && len(model) == 0:
-				viol("nonproducible-recognized", func() string {
-					return fmt.Sprintf("%s: %q (written under %q) is recognized as %s but no (path, instant) produces that whole name", ctx(), h.Name, fs[h.Src].rp, h.outcome())
-				})
-				continue
-			case !h.OK && len(model) != 0:
-				viol("producible-not-recognized", func() string {
-					return fmt.Sprintf("%s: %q is the name of %s but is not recognized", ctx(), h.Name, candStr(model))
-				})
-				continue
-			case !h.OK:
-				outcome = "both-reject"
-			default:
-				paths := map[string]bool{}
-				for _, c := range model {
-					paths[c.Path] = true
-				}
-				good := containsInstant(model, h.Path, h.Mode == "R", got)
-				if own {
-					// the history instants are outside DST overlaps and the history formats with %f identify them
-					if h.Mode == "R" && len(paths) == 1 && h.Path != p {
-						good = false
+			for k, h := range res {
+				r.Eval(1)
+				order := orderBase + int64(hi)*10000000 + int64(k)
+				f := fs[h.Fi]
+				p := histPaths[h.Pi]
+				t := histInstant(h.Ii, loc)
+				// relation of the format in use to the formats used before it in this history
+				rel := "first-format-of-process"
+				for _, prev := range hs.seq[:h.Step] {
+					if prev == h.Fi {
+						continue
 					}
-					if c26lib.Has(toks[h.Fi], 'f') && len(paths) == 1 && !got.Equal(t.Truncate(time.Microsecond)) {
-						good = false
+					if shapes[prev] == shapes[h.Fi] {
+						rel = "after-format-of-same-shape"
+						break
+					}
+					rel = "after-format-of-other-shape"
+				}
+				rep := map[string]any{"zone": histZone, "history": seqNames, "step": h.Step, "recordPath": f.rp, "recordFormat": string(f.rf),
+					"path": p, "instant": histInstants[h.Ii], "mode": h.Mode, "name": h.Name, "nameWrittenUnder": fs[h.Src].rp, "got": h.outcome()}
+				viol := func(kind string, what func() string) {
+					violAt(order, "history:"+kind+":"+f.family+":"+rel, rep, what)
+					r.Distinct(fmt.Sprintf("hist|%s|%s|%s|%s|%s|%s", hs.kind, f.family, fs[h.Src].family, rel, h.Mode, kind))
+				}
+				ctx := func() string {
+					seqNames := seqNames
+					if len(seqNames) > 4 {
+						seqNames = []string{seqNames[0], seqNames[1], fmt.Sprintf("... %d more (see replay) ...", len(seqNames)-3), fs[h.Fi].rp}
+					}
+					return fmt.Sprintf("history %s (fresh process, zone %s), step %d, recordPath %q, mode %s", strings.Join(seqNames, " ; "), histZone, h.Step, f.rp, h.Mode)
+				}
+
+				// (2) purity: same call, same answer as in the process where this format was the only one used
+				// (judged when the reference model has nothing to object)
+				pure := func() {
+					if fr, ok := fresh[h.Fi][h.callKey()]; !ok {
+						// this name was never offered to this format at a step 0: the model alone judges
+						noRef.Add(1)
+					} else if fr.outcome() != h.outcome() || fr.Name != h.Name {
+						rep["freshProcess"] = fr.outcome()
+						viol("differs-from-fresh-process", func() string {
+							return fmt.Sprintf("%s: %q gives %s, but %s when this format is the only one used in the process", ctx(), h.Name, h.outcome(), fr.outcome())
+						})
 					}
 				}
-				if !good {
-					viol("misdecoded", func() string {
-						return fmt.Sprintf("%s: %q (written under %q for path %q at %s) decodes to %s; the name denotes %s",
-							ctx(), h.Name, fs[h.Src].rp, p, histInstants[h.Ii], h.outcome(), candStr(model))
-					})
+
+				// (1) the reference model
+				if h.Panic != "" {
+					viol("panic", func() string { return fmt.Sprintf("%s: %q: %s", ctx(), h.Name, h.Panic) })
 					continue
 				}
-				outcome = "both-accept"
-			}
-			srcRel := "own-name"
-			if !own {
-				srcRel = "name-of-other-shape"
-				if shapes[h.Src] == shapes[h.Fi] {
-					srcRel = "name-of-same-shape"
+				if h.Mode == "E" {
+					if m := c26lib.ModelEncode(toks[h.Fi], p, t); m != h.Name {
+						viol("encoded-name-differs", func() string {
+							return fmt.Sprintf("%s: the recorder names (%q, %s) %q, the format says %q", ctx(), p, histInstants[h.Ii], h.Name, m)
+						})
+					} else {
+						r.Distinct(fmt.Sprintf("hist|%s|%s|%s|E|ok", hs.kind, f.family, rel))
+						pure()
+					}
+					continue
 				}
+				fixed := ""
+				if h.Mode == "F" {
+					fixed = p
+				}
+				model := c26lib.Parse(toks[h.Fi], h.Name, fixed, loc)
+				var got time.Time
+				if h.OK {
+					var perr error
+					got, perr = time.Parse(time.RFC3339Nano, h.Start)
+					if perr != nil {
+						vcommon.Harness("bad worker instant %q", h.Start)
+					}
+				}
+				own := h.Src == h.Fi
+				outcome := ""
+				switch {
+				case own && !h.OK:
+					viol("produced-name-not-recognized", func() string {
+						return fmt.Sprintf("%s: name %q produced by the recorder for path %q at %s is not recognized", ctx(), h.Name, p, histInstants[h.Ii])
+					})
+					continue
+				case h.OK && len(model) == 0:
+					viol("nonproducible-recognized", func() string {
+						return fmt.Sprintf("%s: %q (written under %q) is recognized as %s but no (path, instant) produces that whole name", ctx(), h.Name, fs[h.Src].rp, h.outcome())
+					})
+					continue
+				case !h.OK && len(model) != 0:
+					viol("producible-not-recognized", func() string {
+						return fmt.Sprintf("%s: %q is the name of %s but is not recognized", ctx(), h.Name, candStr(model))
+					})
+					continue
+				case !h.OK:
+					outcome = "both-reject"
+				default:
+					paths := map[string]bool{}
+					for _, c := range model {
+						paths[c.Path] = true
+					}
+					good := containsInstant(model, h.Path, h.Mode == "R", got)
+					if own {
+						// the history instants are outside DST overlaps and the history formats with %f identify them
+						if h.Mode == "R" && len(paths) == 1 && h.Path != p {
+							good = false
+						}
+						if c26lib.Has(toks[h.Fi], 'f') && len(paths) == 1 && !got.Equal(t.Truncate(time.Microsecond)) {
+							good = false
+						}
+					}
+					if !good {
+						viol("misdecoded", func() string {
+							return fmt.Sprintf("%s: %q (written under %q for path %q at %s) decodes to %s; the name denotes %s",
+								ctx(), h.Name, fs[h.Src].rp, p, histInstants[h.Ii], h.outcome(), candStr(model))
+						})
+						continue
+					}
+					outcome = "both-accept"
+				}
+				srcRel := "own-name"
+				if !own {
+					srcRel = "name-of-other-shape"
+					if shapes[h.Src] == shapes[h.Fi] {
+						srcRel = "name-of-same-shape"
+					}
+				}
+				r.Distinct(fmt.Sprintf("hist|%s|%s|%s|%s|%s|%s", hs.kind, f.family, rel, h.Mode, srcRel, outcome))
+				pure()
 			}
-			r.Distinct(fmt.Sprintf("hist|%s|%s|%s|%s|%s|%s", hs.kind, f.family, rel, h.Mode, srcRel, outcome))
-			pure()
-		}
-	})
-	fmt.Fprintf(os.Stderr, "[c26] history phase: %d processes in %.1fs\n", len(hists), time.Since(histStart).Seconds())
-	r.Set("history_formats", n)
-	r.Set("history_same_shape_ordered_pairs", sameShapePairs)
-	r.Set("history_processes", len(hists))
-	r.Set("history_single_format_processes", singles)
-	r.Set("history_results_without_first_use_reference", noRef.Load())
-	r.Set("history_ordered_pairs", len(havePair))
-	r.Set("history_triples", triples)
+		})
+		r.Set("history_formats", n)
+		r.Set("history_same_shape_ordered_pairs", sameShapePairs)
+		r.Set("history_processes", len(hists))
+		r.Set("history_single_format_processes", singles)
+		r.Set("history_results_without_first_use_reference", noRef.Load())
+		r.Set("history_ordered_pairs", len(havePair))
+		r.Set("history_triples", triples)
+	}
 }
